@@ -12,9 +12,15 @@ CLAIMS = {
   "note": "Structures are enumerated (widths <= W, nesting depth <= 2, If chains <= 4 tests, FSMs <= 5 states); spec/sem.py and spec/stmt.py trusted as reference; _PySignalState.update used through its contract; netlist lowering of the same semantics is C04's.",
   "technique": "contract-based deductive verification: staged statement contracts + DSL lowering contracts, VCs by exhaustive symbolic execution, z3",
  },
+ "C05": {
+  "text": "Function contracts on the real testbench evaluator (eval_value, _eval_matches, _eval_assign_inner, eval_assign) executed on proxy values over all paths: for every enumerated expression and assignable-target structure (the C01/C02 templates, memory rows included) z3 proves for ALL signal states and written values that a read returns exactly the reference value (canonical in the expression's shape) and that a write changes exactly the bits the reference assignment changes, every other bit of every signal untouched; DriverConflict raised iff the target is comb-driven. The reference functions are the ones the compiled circuit code is proved against in C01/C02, so agreement with the circuit follows.",
+  "design_ref": "DESIGN.md 3A, 4/C05",
+  "note": "Structures enumerated (widths <= W); spec/sem.py trusted; slot update/read/write used through their contracts; the settle step after set() is C08's.",
+  "technique": "contract-based deductive verification: function contracts on the real evaluator, VCs by exhaustive symbolic execution, z3",
+ },
 }
 NOT_APPLICABLE = {
  "C14": "reflective generators, attribute proxies and a 120-line lock-step loop over heterogeneous objects (flatten, is_compliant, connect) are outside the subset a VC generator built here models soundly; the reachable flip algebra is too small to carry the property (DESIGN.md 4/C14)",
 }
-for _p in ["C03","C04","C05","C06","C07","C08","C09","C10","C11","C12","C13","C15","C16","C17","C18","C19","C20"]:
+for _p in ["C03","C04","C06","C07","C08","C09","C10","C11","C12","C13","C15","C16","C17","C18","C19","C20"]:
     NOT_APPLICABLE.setdefault(_p, "check not built yet in this session (work in progress; see DESIGN.md section 4 for the plan)")
